@@ -80,11 +80,19 @@ def bit(v, i):
     return (v // (2 ** i)) % 2
 
 
-def bitwise(fn, a, b, w):
+def bitwise(kind, a, b, w):
+    """per-bit and/or/xor with branch-free linear arithmetic on the two bits (p + q in {0, 1, 2}):
+    and = (p+q)//2, or = (p+q+1)//2, xor = (p+q)%2."""
     r = 0
     for i in range(w):
-        if fn(bit(a, i), bit(b, i)):
-            r += 2 ** i
+        s = bit(a, i) + bit(b, i)
+        if kind == "and":
+            t = s // 2
+        elif kind == "or":
+            t = (s + 1) // 2
+        else:
+            t = s % 2
+        r += t * 2 ** i
     return r
 
 
@@ -421,9 +429,9 @@ def _argw(f):
 
 BV_HANDLERS = {
     op.BV_NOT: lambda f, a: 2 ** _w(f) - 1 - a[0],
-    op.BV_AND: lambda f, a: bitwise(lambda x, y: x == 1 and y == 1, a[0], a[1], _w(f)),
-    op.BV_OR: lambda f, a: bitwise(lambda x, y: x == 1 or y == 1, a[0], a[1], _w(f)),
-    op.BV_XOR: lambda f, a: bitwise(lambda x, y: x != y, a[0], a[1], _w(f)),
+    op.BV_AND: lambda f, a: bitwise("and", a[0], a[1], _w(f)),
+    op.BV_OR: lambda f, a: bitwise("or", a[0], a[1], _w(f)),
+    op.BV_XOR: lambda f, a: bitwise("xor", a[0], a[1], _w(f)),
     op.BV_CONCAT: lambda f, a: a[0] * 2 ** f.arg(1).bv_width() + a[1],
     op.BV_EXTRACT: _extract,
     op.BV_ULT: lambda f, a: a[0] < a[1],
